@@ -208,6 +208,12 @@ def fresh(seq):
     return [(x,) for x in seq]
 
 
+def mixed(seq):
+    """Equal-by-position elements of mutually UNORDERABLE kinds (int / str / tuple / frozenset side by side): the
+    property speaks of sequences of distinct elements, compared by equality only (nothing may sort or order them)."""
+    return [(x, f"e{x}", (x,), frozenset({x}))[x % 4] if isinstance(x, int) else x for x in seq]
+
+
 def check_seq_cases(ctx, res, cases):
     """child -> mask -> child (property when child is a subsequence of a
     duplicate-free parent); model tie on everything."""
@@ -219,8 +225,10 @@ def check_seq_cases(ctx, res, cases):
     impl_masks = []
     for i, c in enumerate(cases):
         parent, child = c["parent"], c["child"]
-        # every other case: child and parent hold equal but distinct objects
-        m = call(mask_from_subseq, fresh(child), fresh(parent)) if i % 2 else call(mask_from_subseq, child, parent)
+        # two cases in three: child and parent hold equal but distinct objects, or elements of unorderable kinds
+        m = (call(mask_from_subseq, child, parent) if i % 3 == 0 else
+             call(mask_from_subseq, fresh(child), fresh(parent)) if i % 3 == 1 else
+             call(mask_from_subseq, mixed(child), mixed(parent)))
         impl_masks.append(m)
         back_reqs.append({"op": "seq_from", "mask": m if isinstance(m, int) else 0, "parent": parent})
     backs = ctx.driver.parallel(back_reqs)
